@@ -144,7 +144,8 @@ def build():
               'let mut total_log_reduction: usize = 0; for s_ in 0..log_arities.len() { total_log_reduction = total_log_reduction + log_arities[s_]; }')
     f.rewrite('R6', 'index_bits_per_query .iter() .any(|v| v.len() != log_max_height)',
               '({ let mut any_ = false; for k_ in 0..index_bits_per_query.len() { let v = &index_bits_per_query[k_]; if v.len() != log_max_height { any_ = true; } } any_ })')
-    f.rewrite('R5', 'for (q, query_proof) in fri_proof_targets.query_proofs.iter().enumerate() {', 'for q in 0..fri_proof_targets.query_proofs.len() { let query_proof = &fri_proof_targets.query_proofs[q];')
+    f.rewrite_re('R5', r'for \(q, query_proof\) in fri_proof_targets\.query_proofs\.iter\(\)\.enumerate\(\)(?:\.skip\((\w+)\))? \{',
+                 lambda m: f'for q in {m.group(1) or 0}..fri_proof_targets.query_proofs.len() {{ let query_proof = &fri_proof_targets.query_proofs[q];', min_count=1)
     f.rewrite('R5', 'for (phase, opening) in query_proof.commit_phase_openings.iter().enumerate() {', 'for phase in 0..query_proof.commit_phase_openings.len() { let opening = &query_proof.commit_phase_openings[phase];')
     f.rewrite('R6', '''log_max_height .checked_sub(total_log_reduction) .and_then(|x| x.checked_sub(log_blowup)) .ok_or_else(|| { VerificationError::InvalidProofShape(errmsg()) })?''',
               '''(match log_max_height.checked_sub(total_log_reduction) { Some(x) => match x.checked_sub(log_blowup) { Some(y) => y, None => { return Err(VerificationError::InvalidProofShape(errmsg())); } }, None => { return Err(VerificationError::InvalidProofShape(errmsg())); } })''')
@@ -160,7 +161,8 @@ def build():
     f.loop('for k_ in 0..index_bits_per_query.len()', invariants=[
         ('any', 'any_ == exists|j: int| 0 <= j < k_ && (#[trigger] index_bits_per_query@[j])@.len() != log_max_height'),
     ])
-    f.loop('for q in 0..fri_proof_targets.query_proofs.len()', invariants=[
+    QL = re.search(r'for q in \w+\.\.fri_proof_targets\.query_proofs\.len\(\)', f.body).group(0)
+    f.loop(QL, invariants=[
         ('pre', 'log_arities@ == fri_proof_targets.log_arities@ && log_arities@.len() == num_phases && ef_dim == sp_dim()'),
         ('done', '''forall|qq: int| 0 <= qq < q ==> (#[trigger] fri_proof_targets.query_proofs@[qq]).commit_phase_openings@.len() == num_phases
                 && forall|pp: int| 0 <= pp < num_phases ==> (#[trigger] fri_proof_targets.query_proofs@[qq].commit_phase_openings@[pp]).log_arity == log_arities@[pp]
